@@ -56,7 +56,10 @@ def worker_one(case, seed):
         else:
             pop = case["pop"]
         a.current_population = pop
-        a.population_fed = 0
+        # whatever last month's feeding left in the fed count (the month loop never resets it): arbitrary
+        a.population_fed = E.real("fed_last_month")
+        E.assume(a.population_fed >= 0)
+        E.assume(a.population_fed <= 1e11)
         a.population_starving_pre_slaughter = []
         with patched(ap, fd, isinstance_=True):
             a.reset_NE_balance()
@@ -104,7 +107,7 @@ def replay_one(case, cx):
     pop = m["pop"] if case["pop"] == "sym" else case["pop"]
     g, f = m["grass"], m["feed"]
     a.current_population = pop
-    a.population_fed = 0
+    a.population_fed = m.get("fed_last_month", 0.0)
     a.population_starving_pre_slaughter = []
     a.reset_NE_balance()
     required = a.NE_balance.kcals
